@@ -80,7 +80,7 @@ OptPool == CASE OptPoolSel = "small" -> << x, S1, N("Product", << S1, S1 >>), K4
                     N("LogOr", << N("LogAnd", << x, y >>), U("LogNot", x), U("BitNot", y) >>),
                     B("LShift", B("RShift", x, K1), B("Power", x, K4)),
                     IfE(Cmp(x, "<", y), Call(ff, << x, S1 >>), B("Sub", tt, K1)),
-                    N("Tup", << x, Look(oo, "p"), CSE0(S1), N("List", << y, K1 >>) >>),
+                    N("Tup", << x, Look(oo, "p"), CSE0(S1), N("Tup", << y, K1 >>) >>),   \* (no lists: C05-F8)
                     CallKw(ff, << N("Product", << x, y >>) >>, << KwArg("k1", N("Max", << x, K1 >>)) >>) >>
 OptArgs == CASE OptArgSel = "two"  -> << NoArgs, Args(<< IntV(1) >>, << >>) >>
              [] OptArgSel = "three" -> << NoArgs, Args(<< IntV(1) >>, << >>),
